@@ -30,6 +30,10 @@ def random_script(rng: random.Random, exch_type: str, lattice=None, rich=True) -
         'lattice': lattice,
         'observe': 'digest',
     }
+    if rich and rng.random() < 0.15:
+        s['p_open_liquidate'] = rng.choice([0.2, 0.5])
+    if rich and rng.random() < 0.15:
+        s['on_reduced'] = 'liquidate'
     if s['sl'] is None and s['tp'] is None:
         s[rng.choice(['sl', 'tp'])] = 0.004
     if lattice:
